@@ -79,13 +79,21 @@ func ruleGrouperSelection(r *Run) {
 				if isErr, known := endReturnsError(e); known && isErr {
 					continue
 				}
+				// the grouper the result ends up with: the last write of a grouper field on the path
+				// (a default that a later statement overrides does not count)
+				var lastG *feStore
+				for i := range e.State.stores {
+					if n, _, ok := fieldNameOf(e.State.stores[i].Store.Addr); ok && n == "grouper" {
+						lastG = &e.State.stores[i]
+					}
+				}
+				if lastG != nil {
+					got[classify(lastG.Val.V)] = true
+				}
 				for _, st := range e.State.stores {
 					n, _, ok := fieldNameOf(st.Store.Addr)
 					if !ok {
 						continue
-					}
-					if n == "grouper" {
-						got[classify(st.Val.V)] = true
 					}
 					if n == "groupLabels" && c.has {
 						// must be g.Labels
@@ -557,6 +565,17 @@ func ruleHeapIterator(r *Run) {
 		if f, _, ok := loadOfField(l.X); ok && f == "Samples" {
 			loop = l
 			break
+		}
+	}
+	if loop == nil {
+		// the distribution of the samples over the heaps may be a helper that is handed step.Samples
+		grp := funcGroup(fn)
+		for _, g := range grp[1:] {
+			for _, l := range rangeIndexLoops(g) {
+				if f, _, ok := loadOfField(originValueIn(l.X, grp)); ok && f == "Samples" && loop == nil {
+					loop, fn = l, g
+				}
+			}
 		}
 	}
 	if loop == nil {
